@@ -16,13 +16,19 @@ Record token : Type := mkToken { t_denom : string; t_rate : Z (* sdk.Dec, scaled
 Fixpoint find_token (ts : list token) (d : string) : option token :=
   match ts with [] => None | t :: r => if String.eqb (t_denom t) d then Some t else find_token r d end.
 
+(* custody settings of an account, as far as the ante handler and custody Send look at them
+   (UsePassword / UseWhiteList / UseLimits are off) *)
+Record cust : Type := mkCust { cu_enabled : bool; cu_custodians : option Z (* None: no custodians record *) }.
+
 Record fcfg : Type := mkCfg {
   c_filt : filt;
   c_tokens : list token;                     (* tokens registry *)
   c_foreign : bool;                          (* EnableForeignFeePayments *)
   c_min_fee : Z;                             (* MinTxFee  (uint64) *)
   c_max_fee : Z;                             (* MaxTxFee  (uint64) *)
-  c_exec : list (string * (Z * Z))           (* msg type -> (ExecutionFee, FailureFee), uint64 *)
+  c_exec : list (string * (Z * Z));          (* msg type -> (ExecutionFee, FailureFee), uint64 *)
+  c_custody : list (string * cust);          (* accounts that have a custody record *)
+  c_min_reward : Z                           (* MinCustodyReward (uint64) *)
 }.
 Fixpoint find_exec (l : list (string * (Z * Z))) (ty : string) : option (Z * Z) :=
   match l with [] => None | (k, v) :: r => if String.eqb k ty then Some v else find_exec r ty end.
@@ -71,7 +77,7 @@ Record acct : Type := mkAcct { a_seq : Z; a_haspk : bool }.
 Record st : Type := mkSt {
   s_bal : list ((string * string) * Z);      (* (account, denom) -> balance; first binding wins *)
   s_acct : list (string * acct);             (* existing accounts; first binding wins *)
-  s_exec : list (string * string);           (* feeprocessing execution-status list: (msg type, fee payer), Success=false *)
+  s_exec : list (string * string * bool);    (* feeprocessing execution-status list: (msg type, fee payer, success) *)
   s_hist : list (string * coins);            (* feeprocessing fee payment history by address *)
   s_marks : list string                      (* keys written by non-transfer messages *)
 }.
@@ -91,7 +97,7 @@ Definition set_bal (s : st) (a d : string) (v : Z) : st :=
   mkSt (((a, d), v) :: s_bal s) (s_acct s) (s_exec s) (s_hist s) (s_marks s).
 Definition set_acct (s : st) (a : string) (x : acct) : st :=
   mkSt (s_bal s) ((a, x) :: s_acct s) (s_exec s) (s_hist s) (s_marks s).
-Definition set_exec (s : st) (e : list (string * string)) : st :=
+Definition set_exec (s : st) (e : list (string * string * bool)) : st :=
   mkSt (s_bal s) (s_acct s) e (s_hist s) (s_marks s).
 Definition set_hist (s : st) (a : string) (h : coins) : st :=
   mkSt (s_bal s) (s_acct s) (s_exec s) ((a, h) :: s_hist s) (s_marks s).
@@ -141,18 +147,34 @@ Definition bank_send (s : st) (from to : string) (cs : coins) : outcome st :=
   do s1 <- sub_coins s from cs; Ok (ensure_acct (add_coins s1 to cs) to).
 
 (* ---------------------------------------------------------------- message handlers *)
-Definition run_msg (s : st) (m : msg) : outcome st :=
+Fixpoint lookup_cust (l : list (string * cust)) (a : string) : option cust :=
+  match l with [] => None | (k, v) :: r => if String.eqb k a then Some v else lookup_cust r a end.
+
+Definition run_msg (nat_ : string) (cu : list (string * cust)) (s : st) (m : msg) : outcome st :=
   match m with
   | MSend f t a => if String.eqb t collector then Err "blocked address" else bank_send s f t a
-  | MCustody f t a _ => if String.eqb t collector then Err "blocked address" else bank_send s f t a
+  | MCustody f t a _ =>
+      if String.eqb t collector then Err "blocked address"
+      else match lookup_cust cu f with
+           | Some k => if cu_enabled k then
+                         match cu_custodians k with
+                         | None => Panic "nil pointer dereference"       (* len(custodians.Addresses) on a nil list *)
+                         | Some n => if 0 <? n then Ok (add_mark s "custody_pool") else bank_send s f t a
+                         end
+                       else bank_send s f t a
+           | None => bank_send s f t a
+           end
+  (* tokens EthereumTx NativeSend: SendCoins of one native coin, no blocked-address check;
+     a zero amount is refused by the bank (invalid coins) *)
+  | MEth f t v => if 0 <? v then bank_send s f t [(nat_, v)] else Err "invalid coins"
   | MMulti f inp outs =>
       if existsb (fun o => String.eqb (fst o) collector) outs then Err "blocked address"
       else do s1 <- sub_coins s f inp;
            Ok (fold_left (fun x o => ensure_acct (add_coins x (fst o) (snd o)) (fst o)) outs s1)
   | MOther _ _ fails k => if fails then Err "handler error" else Ok (add_mark s k)
   end.
-Fixpoint run_msgs (s : st) (ms : list msg) : outcome st :=
-  match ms with [] => Ok s | m :: r => do s' <- run_msg s m; run_msgs s' r end.
+Fixpoint run_msgs (nat_ : string) (cu : list (string * cust)) (s : st) (ms : list msg) : outcome st :=
+  match ms with [] => Ok s | m :: r => do s' <- run_msg nat_ cu s m; run_msgs nat_ cu s' r end.
 
 (* Msg.ValidateBasic of the structurally modelled messages *)
 Definition msg_valid (m : msg) : bool :=
@@ -161,6 +183,7 @@ Definition msg_valid (m : msg) : bool :=
   | MCustody _ _ a _ => (negb (is_nil a) && coins_valid a)%bool
   | MMulti _ inp outs => (negb (is_nil inp) && coins_valid inp && negb (is_nil outs)
                           && forallb (fun o => negb (is_nil (snd o)) && coins_valid (snd o)) outs)%bool
+  | MEth _ _ v => 0 <=? v
   | MOther _ ss _ _ => negb (is_nil ss)
   end.
 
@@ -169,12 +192,20 @@ Record tx : Type := mkTx {
   t_fee : coins;
   t_msgs : list msg;
   t_seqs : list Z;          (* the sequence each signer signed with, in signer order *)
-  t_sig_ok : bool           (* all signatures verify (crypto is an input of the model) *)
+  t_sig_ok : bool;          (* all signatures verify (crypto is an input of the model) *)
+  t_payer : string;         (* AuthInfo.Fee.Payer; "" = none (the first signer pays) *)
+  t_gas : Z;                (* gas limit *)
+  t_granter : bool          (* AuthInfo.Fee.Granter set *)
 }.
 Fixpoint dedup_add (acc : list string) (l : list string) : list string :=
   match l with [] => acc | x :: r => if str_in x acc then dedup_add acc r else dedup_add (acc ++ [x]) r end.
 (* Tx.GetSigners: signers of all messages in order of first appearance *)
-Definition tx_signers (ms : list msg) : list string := dedup_add [] (flat_map msg_signers ms).
+Definition msgs_signers (ms : list msg) : list string := dedup_add [] (flat_map msg_signers ms).
+(* Tx.GetSigners: message signers in order of first appearance, then the explicit fee payer *)
+Definition tx_signers (t : tx) : list string :=
+  dedup_add [] (flat_map msg_signers (t_msgs t) ++ (if String.eqb (t_payer t) "" then [] else [t_payer t])).
+Definition payer_of (t : tx) : string :=
+  if String.eqb (t_payer t) "" then hd ""%string (tx_signers t) else t_payer t.
 
 Definition set_pubkeys (s : st) (signers : list string) : st :=
   fold_left (fun x a => match get_acct x a with
@@ -202,26 +233,63 @@ Definition deduct (wired : bool) (s : st) (payer : string) (fee : coins) : outco
        Ok (if wired then set_hist s2 payer (coins_plus (hist_of s2 payer) fee) else s2).
 
 (* ExecutionFeeRegistrationDecorator: AddExecutionStart for every message that has a fee entry *)
-Fixpoint register_execs (c : fcfg) (execs : list (string * string)) (ms : list msg) : list (string * string) :=
+Fixpoint register_execs (c : fcfg) (execs : list (string * string * bool)) (ms : list msg) : list (string * string * bool) :=
   match ms with
   | [] => execs
   | m :: r => match find_exec (c_exec c) (msg_type m) with
               | None => register_execs c execs r
-              | Some _ => register_execs c (execs ++ [(msg_type m, hd ""%string (msg_signers m))]) r
+              | Some _ => register_execs c (execs ++ [(msg_type m, hd ""%string (msg_signers m), false)]) r
               end
   end.
 
-(* the ante chain, in the order of NewAnteHandler.  Signers are assumed to have no custody
-   settings (CustodyDecorator is then a pass-through) and the gas limit to be positive. *)
+(* CustodyDecorator, for signers whose custody record has UseWhiteList = UseLimits = false:
+   custody send needs a native reward of at least MinCustodyReward * #custodians; a bank send is
+   refused when custodians exist.  A custody record without a custodians record is a nil
+   dereference. *)
+Definition custody_msg (c : fcfg) (m : msg) : outcome unit :=
+  match lookup_cust (c_custody c) (hd ""%string (msg_signers m)) with
+  | Some k =>
+      if cu_enabled k then
+        match m with
+        | MCustody _ _ _ reward =>
+            match cu_custodians k with
+            | None => Panic "nil pointer dereference"
+            | Some n =>
+                match reward with
+                | [] => Err "no reward"
+                | (d, a) :: _ =>
+                    if wrap64 a <? wrap64 (c_min_reward c * n) then Err "to small reward"
+                    else if negb (String.eqb d (f_native (c_filt c))) then Err "wrong reward denom"
+                    else Ok tt
+                end
+            end
+        | MSend _ _ _ =>
+            match cu_custodians k with
+            | None => Panic "nil pointer dereference"
+            | Some n => if 0 <? n then Err "Custody module is enabled. Please use custody send instead." else Ok tt
+            end
+        | _ => Ok tt
+        end
+      else Ok tt
+  | None => Ok tt
+  end.
+Fixpoint custody_check (c : fcfg) (ms : list msg) : outcome unit :=
+  match ms with [] => Ok tt | m :: r => do _ <- custody_msg c m; custody_check c r end.
+
+(* the ante chain, in the order of NewAnteHandler. *)
 Definition ante (sh : shape) (wired : bool) (c : fcfg) (s : st) (t : tx) : outcome st :=
   let ms := t_msgs t in
-  let signers := tx_signers ms in
+  let signers := tx_signers t in
   match signers with
   | [] => Err "no signers"
-  | payer :: _ =>
-      (* baseapp validateBasicTxMsgs + ValidateBasicDecorator *)
+  | _ :: _ =>
+      let payer := payer_of t in
+      (* baseapp validateBasicTxMsgs *)
       if (is_nil ms || negb (forallb msg_valid ms))%bool then Err "validate basic"
-      else if existsb (fun x => snd x <? 0) (t_fee t) then Err "invalid fee provided"
+      else
+      do _ <- custody_check c ms;
+      (* ValidateBasicDecorator *)
+      if existsb (fun x => snd x <? 0) (t_fee t) then Err "invalid fee provided"
       else if negb (Nat.eqb (List.length (t_seqs t)) (List.length signers)) then Err "wrong number of signers"
       else
       do _ <- validate_fee c (t_fee t) ms;
@@ -229,6 +297,10 @@ Definition ante (sh : shape) (wired : bool) (c : fcfg) (s : st) (t : tx) : outco
       if negb (forallb (has_acct s) signers) then Err "unknown address"
       else
       let s1 := set_pubkeys s signers in
+      (* DeductFeeDecorator: positive gas, no fee grants *)
+      if t_gas t <=? 0 then Err "must provide positive gas"
+      else if t_granter t then Err "fee grants are not enabled"
+      else
       do s2 <- deduct wired s1 payer (t_fee t);
       do _ <- poor_check sh (c_filt c) ms;
       do _ <- bw_loop sh (c_filt c) ms;
@@ -240,14 +312,36 @@ Definition ante (sh : shape) (wired : bool) (c : fcfg) (s : st) (t : tx) : outco
   end.
 
 (* ---------------------------------------------------------------- baseapp runTx *)
-Inductive tx_result : Type := TxOk | TxAnteRejected | TxAntePanic | TxMsgFailed.
+Inductive tx_result : Type := TxOk | TxAnteRejected | TxAntePanic | TxMsgFailed | TxMsgPanic.
+
+(* posthandler ExecutionDecorator (only when a post handler is installed, [post = true]): for
+   each message in order, stop at the first one without a fee entry; otherwise mark the first
+   still-unsuccessful execution of that (type, first signer) successful *)
+Fixpoint mark_one (execs : list (string * string * bool)) (ty payer : string) : list (string * string * bool) :=
+  match execs with
+  | [] => []
+  | (t0, p0, ok) :: r =>
+      if (String.eqb t0 ty && String.eqb p0 payer && negb ok)%bool then (t0, p0, true) :: r
+      else (t0, p0, ok) :: mark_one r ty payer
+  end.
+Fixpoint mark_success (c : fcfg) (execs : list (string * string * bool)) (ms : list msg) : list (string * string * bool) :=
+  match ms with
+  | [] => execs
+  | m :: r => match find_exec (c_exec c) (msg_type m) with
+              | None => execs
+              | Some _ => mark_success c (mark_one execs (msg_type m) (hd ""%string (msg_signers m))) r
+              end
+  end.
+
 (* the ante handler runs on a branch of the state that is written back iff it succeeds; the
-   messages run on a second branch written back iff every message succeeds *)
-Definition run_tx (sh : shape) (wired : bool) (c : fcfg) (s : st) (t : tx) : st * tx_result :=
+   messages (and then the post handler) run on a second branch written back iff every message
+   succeeds *)
+Definition run_tx (sh : shape) (wired post : bool) (c : fcfg) (s : st) (t : tx) : st * tx_result :=
   match ante sh wired c s t with
-  | Ok s1 => match run_msgs s1 (t_msgs t) with
-             | Ok s2 => (s2, TxOk)
-             | _ => (s1, TxMsgFailed)
+  | Ok s1 => match run_msgs (f_native (c_filt c)) (c_custody c) s1 (t_msgs t) with
+             | Ok s2 => (if post then set_exec s2 (mark_success c (s_exec s2) (t_msgs t)) else s2, TxOk)
+             | Err _ => (s1, TxMsgFailed)
+             | Panic _ => (s1, TxMsgPanic)
              end
   | Err _ => (s, TxAnteRejected)
   | Panic _ => (s, TxAntePanic)
@@ -299,17 +393,18 @@ Definition refund (c : fcfg) (s : st) (recipient : string) (amt : coins) : outco
   if String.eqb recipient collector then Err "blocked address"
   else do s2 <- sub_coins s1 collector pb; Ok (ensure_acct (add_coins s2 recipient pb) recipient).
 
-(* ProcessExecutionFeeReturn: every registered execution is still marked unsuccessful (no post
-   handler is installed), so the return is ExecutionFee - FailureFee when that is positive.
-   An error of the transfer is a panic of the end blocker. *)
-Fixpoint process_returns (c : fcfg) (s : st) (execs : list (string * string)) : outcome st :=
+(* ProcessExecutionFeeReturn: a successful execution is returned FailureFee - ExecutionFee, an
+   unsuccessful one ExecutionFee - FailureFee, when positive (int64 cast of the uint64
+   difference).  An error of the transfer is a panic of the end blocker. *)
+Fixpoint process_returns (c : fcfg) (s : st) (execs : list (string * string * bool)) : outcome st :=
   match execs with
   | [] => Ok s
-  | (ty, payer) :: r =>
+  | (ty, payer, ok) :: r =>
       match find_exec (c_exec c) ty with
       | None => process_returns c s r
       | Some (e, f) =>
-          let amount := if f <? e then as_int64 (e - f) else 0 in
+          let amount := if (ok && (e <? f))%bool then as_int64 (f - e)
+                        else if (negb ok && (f <? e))%bool then as_int64 (e - f) else 0 in
           if 0 <? amount then
             match refund c s payer [(f_native (c_filt c), amount)] with
             | Ok s' => process_returns c s' r
